@@ -1,0 +1,41 @@
+/*
+ * Verification hooks (model-checking harness in /verif).  Everything in this
+ * file and every SLU_MT_VEV(...) line in the sources is inert unless the
+ * library is compiled with -DSLU_MT_VERIF.
+ */
+#ifndef SLU_MT_VERIF_H
+#define SLU_MT_VERIF_H
+#ifdef SLU_MT_VERIF
+extern void slu_mt_verif_ev(int kind, long a, long b, long c);
+#define SLU_MT_VEV(k,a,b,c) slu_mt_verif_ev((k),(long)(a),(long)(b),(long)(c))
+#else
+#define SLU_MT_VEV(k,a,b,c) ((void)0)
+#endif
+enum {
+    VE_LOOP_CHECK = 1, /* (pnum, 0, &tasks_remain)   before each poll of tasks_remain   */
+    VE_SCHED_RET,      /* (pnum, jcol, bcol)          end of scheduler critical section  */
+    VE_SCHED_EMPTY,    /* (pnum, 0, 0)                scheduler returned EMPTY           */
+    VE_PANEL_BEGIN,    /* (pnum, jcol, bcol)          worker starts panel jcol           */
+    VE_COL_BEGIN,      /* (pnum, jj, jcol)            worker starts column jj of panel   */
+    VE_MARK_BUSY,      /* (pnum, jcol, bcol)          entry of mark_busy_descends        */
+    VE_MARK_BUSY_END,  /* (pnum, jcol, fsupc)         exit, adjusted bcol                */
+    VE_DFS_PERMR,      /* (pnum, row, &perm_r[row])   racy read of perm_r in panel dfs   */
+    VE_DFS_VISIT,      /* (pnum, krep, &ispruned[krep]) dfs is about to traverse krep    */
+    VE_FLAG_CHECK,     /* (pnum, kcol, &spin_locks[kcol]) test / wait on a column flag   */
+    VE_READ_SN_BEGIN,  /* (pnum, fsupc, krep)         numeric use of supernode begins    */
+    VE_READ_SN_END,    /* (pnum, fsupc, krep)         ... ends                           */
+    VE_NEWSUPER,       /* (pnum, jcol, nsuper)        supernode number handed out        */
+    VE_LSUB_ALLOC,     /* (pnum, jcol, offset)        subscript storage handed out       */
+    VE_LUSUP_ALLOC,    /* (jcol, num, &map_in_sup[fsupc]) values handed out from the H-slot */
+    VE_STORE_COL,      /* (pnum, jcol, fsupc)         column values gathered into lusup  */
+    VE_PIVOT_REC,      /* (pnum, jcol, &perm_r[pivrow]) pivot row recorded               */
+    VE_ROW_XCHG,       /* (pnum, jcol, fsupc)         in-supernode row interchange       */
+    VE_RELEASE,        /* (pnum, jcol, w)             spin_locks[jcol..jcol+w-1] = 0     */
+    VE_PRUNE_CHECK,    /* (jcol, irep, &supno[irep+1])                                   */
+    VE_PRUNE_SWAP,     /* (jcol, irep, kmin)          partition swap in pruned copy      */
+    VE_PRUNE_PUB,      /* (jcol, irep, kmin)          xprune/ispruned published          */
+    VE_PANEL_DONE,     /* (pnum, jcol, &state)        STATE(jcol) = DONE                 */
+    VE_RACY_READ,      /* (pnum, what, addr)          declared racy-by-design read       */
+    VE_THREAD_EXIT     /* (pnum, info, 0)             worker leaves the main loop        */
+};
+#endif
